@@ -44,6 +44,9 @@ type Clause struct {
 	File   string
 	Ord    int // ordinal among clauses of the same kind in the contract
 	Assume bool
+	// Internal clauses talk about the callee's own variables at exit (now(x)); they are proved of the body
+	// and not used at call sites.
+	Internal bool
 }
 
 type Contract struct {
@@ -68,6 +71,18 @@ type Contract struct {
 	Ghosts   []string // ghost statements: "name = expr" executed at exit (unused for now)
 	Uses     []string // callback contracts: caller variables visible to the contract
 	Interf   []string // locations other goroutines may change while the call blocks (lock acquisition)
+	Sites    map[string][]*SiteAnn
+	Assumed  []string // free-text assumptions made by this contract (listed in evidence)
+	NoNilFn  bool     // function values called in the body are assumed non-nil (recorded in Assumed)
+	NoFrame  bool     // the modifies clause is used at call sites but not checked against the body
+}
+
+// SiteAnn is an annotation attached to the k-th call (source order) whose callee expression reads Text.
+type SiteAnn struct {
+	Site  string // e.g. sm.check#0
+	Kind  string // assert | set
+	Ghost string
+	Cl    *Clause
 }
 
 type Transition struct {
@@ -189,7 +204,7 @@ func (ss *SpecSet) parseFile(path string, dep bool) error {
 		}
 		mkClause := func(kind, src string) (*Clause, error) {
 			tags, body := parseTags(src)
-			c := &Clause{Kind: kind, Tags: tags, Src: body, Line: ln + 1, File: path}
+			c := &Clause{Kind: kind, Tags: tags, Src: body, Line: ln + 1, File: path, Internal: strings.Contains(body, "now(")}
 			e, err := parser.ParseExpr(body)
 			if err != nil {
 				return nil, fmt.Errorf("%s:%d: cannot parse %q: %v", path, ln+1, body, err)
@@ -301,6 +316,38 @@ func (ss *SpecSet) parseFile(path string, dep bool) error {
 				cur.Uses = splitLocs(rest)
 			case "interference":
 				cur.Interf = append(cur.Interf, splitLocs(rest)...)
+			case "at":
+				// at <site> assert [tags] expr | at <site> set ghost = expr
+				f := strings.SplitN(rest, " ", 3)
+				if len(f) < 3 {
+					return fmt.Errorf("%s:%d: at <site> assert|set ...", path, ln+1)
+				}
+				site := f[0]
+				if !strings.Contains(site, "#") {
+					site += "#0"
+				}
+				ann := &SiteAnn{Site: site, Kind: f[1]}
+				body := f[2]
+				if f[1] == "set" {
+					eq := strings.Index(body, "=")
+					if eq < 0 {
+						return fmt.Errorf("%s:%d: at <site> set ghost = expr", path, ln+1)
+					}
+					ann.Ghost = strings.TrimSpace(body[:eq])
+					body = strings.TrimSpace(body[eq+1:])
+				} else if f[1] != "assert" {
+					return fmt.Errorf("%s:%d: at <site> assert|set ...", path, ln+1)
+				}
+				c, err := mkClause("site-"+f[1], body)
+				if err != nil {
+					return err
+				}
+				ann.Cl = c
+				if cur.Sites == nil {
+					cur.Sites = map[string][]*SiteAnn{}
+				}
+				c.Ord = len(cur.Sites[site])
+				cur.Sites[site] = append(cur.Sites[site], ann)
 			case "results":
 				cur.Results = splitLocs(rest)
 			case "requires", "ensures", "cover":
@@ -374,6 +421,14 @@ func (ss *SpecSet) parseFile(path string, dep bool) error {
 				default:
 					return fmt.Errorf("%s:%d: unknown loop clause %q", path, ln+1, f[1])
 				}
+			case "assumes":
+				cur.Assumed = append(cur.Assumed, strings.Trim(rest, `"`))
+			case "noframe":
+				cur.NoFrame = true
+				cur.Assumed = append(cur.Assumed, "the modifies clause of "+cur.Key+" is not checked against its body (it calls user code and allocates): "+strings.Trim(rest, `"`))
+			case "assumes-nonnil-calls":
+				cur.NoNilFn = true
+				cur.Assumed = append(cur.Assumed, "function values called in "+cur.Key+" are not nil: "+strings.Trim(rest, `"`))
 			case "trusted":
 				cur.Trusted = strings.Trim(rest, `"`)
 				if cur.Trusted == "" {
